@@ -32,6 +32,9 @@ def variants(rng, src: str):
     out.append(("blank_and_ws_lines", ("\n   \n\t\n# c\n   # indented comment\n" + src + "\n\n  \n").encode()))
     out.append(("formfeed_vtab", ("\x0c\n" + src + "x = 1 \x0b\n").encode()))
     out.append(("lone_cr", src.replace("\n", "\r", 1).encode()))
+    # characters str.splitlines() breaks at but Python source does not, INSIDE a line that goes on afterwards (seeded change C12-m6 counted the tail as a line)
+    out.append(("separators_inside_lines", ("s = 'a\u2028b\u2029c'\n# page one\x0cpage two\n# see\x0bbelow\nx = 1 \x0c + 2\nd = 'x\x1cy\x1dz\x1e'\n" + src).encode()))
+    out.append(("latin1_nel", b"# -*- coding: latin-1 -*-\n# note \x85 more\n" + src.encode("latin-1")))
     return out
 
 
@@ -140,6 +143,33 @@ def run(res, ctx):
                                 res.break_("correspondence:" + k, {"variant": vname, "file_hex": data.hex(), "impl": m.get(k), "model": mm.get(k)})
                     else:
                         res.count("counts-not-compared(unmodelled id present)")
+        # ---- a file on which the VISITOR gives up after findings were produced (a 1200-link attribute chain exhausts the recursion limit): whatever is
+        #      reported for it, the counts must say the same (seeded change C12-m5 kept the findings of such a file but never counted them)
+        from bandit.core import config as b_config, manager as b_manager
+        deepd = os.path.join(scratch.root, "deep"); os.makedirs(deepd)
+        with open(os.path.join(deepd, "a_ok.py"), "w") as f:
+            f.write("import pickle\nassert x\n")
+        with open(os.path.join(deepd, "b_deep.py"), "w") as f:
+            f.write("import pickle\nimport subprocess\nsubprocess.Popen('ls *', shell=True)\nx = a" + ".b" * 1200 + "\n")
+        mgr = b_manager.BanditManager(b_config.BanditConfig(), "file")
+        mgr.discover_files([os.path.join(deepd, "a_ok.py"), os.path.join(deepd, "b_deep.py")])
+        mgr.run_tests(); C.take_log()
+        res.case(("visitor-gives-up",), True)
+        for fn in list(mgr.files_list) + [n for n, _ in mgr.skipped]:
+            blk = mgr.metrics.data.get(fn, {})
+            for crit, attr in (("SEVERITY", "severity"), ("CONFIDENCE", "confidence")):
+                for rank in RANKS:
+                    want = sum(1 for r in mgr.results if r.fname == fn and getattr(r, attr) == rank)
+                    if blk.get(f"{crit}.{rank}", 0) != want:
+                        res.violation("a per-file count differs from the number of findings of that rank reported for the file",
+                                      {"file": os.path.basename(fn), "key": f"{crit}.{rank}", "count": blk.get(f"{crit}.{rank}", 0), "findings": want,
+                                       "skipped": [[os.path.basename(n), r] for n, r in mgr.skipped]})
+        tot = mgr.metrics.data["_totals"]
+        for crit, attr in (("SEVERITY", "severity"), ("CONFIDENCE", "confidence")):
+            for rank in RANKS:
+                want = sum(1 for r in mgr.results if getattr(r, attr) == rank)
+                if tot.get(f"{crit}.{rank}", 0) != want:
+                    res.violation("a total count differs from the number of findings of that rank", {"key": f"{crit}.{rank}", "total": tot.get(f"{crit}.{rank}"), "findings": want})
         # ---- totals over files whose DISCOVERED path starts with an underscore / a dot / a digit (relative directory targets are walked as given, so
         #      `bandit -r _vendor app` yields keys such as '_vendor/lib.py' next to the bookkeeping key '_totals': seeded change C12-m3 skipped every key
         #      starting with '_' when adding up)
